@@ -136,7 +136,7 @@ func genC01(t *rapid.T) c01Case {
 	c.InitialCRLF = rapid.IntRange(0, 4).Draw(t, "initialcrlf") == 0
 	c.Run2Mode = rapid.SampledFrom([]string{"default", "update_false", "ci", "clean"}).Draw(t, "mode2")
 	c.Between = rapid.SampledFrom([]string{"", "", "", "", "no_final_newline", "crlf"}).Draw(t, "between")
-	c.Run2Perm = rapid.Permutation(indices(ntests)).Draw(t, "perm")
+	c.Run2Perm = rapid.Permutation(vhIndices(ntests)).Draw(t, "perm")
 	c.Record = rapid.SampledFrom([]string{"env", "option"}).Draw(t, "record")
 	c.Count2 = rapid.SampledFrom([]int{1, 1, 1, 2, 3}).Draw(t, "count2")
 	if ntests > 1 && rapid.IntRange(0, 2).Draw(t, "interleave2") == 0 {
@@ -200,7 +200,7 @@ func checkC01(c c01Case) error {
 	var cfgs []*Config
 	if c.Record == "option" {
 		newProcess(Mode{})
-		cfgs = buildCfgs(root, c.Cfgs, boolp(true))
+		cfgs = buildCfgs(root, c.Cfgs, vhBoolp(true))
 	} else {
 		newProcess(Mode{Update: "true"})
 		cfgs = buildCfgs(root, c.Cfgs, nil)
@@ -214,7 +214,7 @@ func checkC01(c c01Case) error {
 				return fmt.Errorf("run 1 (recording) %s call %d: %v", tp.Name, k+1, err)
 			}
 			if out == oFailed {
-				return fmt.Errorf("run 1 (recording) %s call %d (%s) failed although updating is enabled: %q", tp.Name, k+1, call.API, clipAll(r.Errors))
+				return fmt.Errorf("run 1 (recording) %s call %d (%s) failed although updating is enabled: %q", tp.Name, k+1, call.API, vhClipAll(r.Errors))
 			}
 		}
 		ft.finish()
@@ -225,7 +225,7 @@ func checkC01(c c01Case) error {
 	mode := Mode{}
 	switch c.Run2Mode {
 	case "update_false":
-		upd = boolp(false)
+		upd = vhBoolp(false)
 	case "ci":
 		mode.CI = true
 	case "clean":
@@ -270,7 +270,7 @@ func checkC01(c c01Case) error {
 			out, err := outcomeOf(r)
 			if err != nil || out != oPassed {
 				return fmt.Errorf("run 2 (interleaved replay, mode %s) %s call %d (%s): outcome %q err %v; errors=%q logs=%q",
-					c.Run2Mode, tp.Name, next[ti], call.API, out, err, clipAll(r.Errors), clipAll(r.Logs))
+					c.Run2Mode, tp.Name, next[ti], call.API, out, err, vhClipAll(r.Errors), vhClipAll(r.Logs))
 			}
 		}
 		if d := diffDirs(before, snapDir(root), false); d != "" {
@@ -293,7 +293,7 @@ func checkC01(c c01Case) error {
 			}
 			if out != oPassed {
 				return fmt.Errorf("run 2 (replay, mode %s) %s call %d (%s): outcome %s, want passed; errors=%q logs=%q",
-					c.Run2Mode, tp.Name, k+1, call.API, out, clipAll(r.Errors), clipAll(r.Logs))
+					c.Run2Mode, tp.Name, k+1, call.API, out, vhClipAll(r.Errors), vhClipAll(r.Logs))
 			}
 		}
 		ft.finish()
@@ -366,7 +366,7 @@ func classifyC01(c c01Case) ([]string, bool) {
 	if len(c.Inter2) > 0 {
 		cls = append(cls, "interleaved_replay")
 	}
-	cls = uniq(cls)
+	cls = vhUniq(cls)
 	return append(cls, "mode2_"+c.Run2Mode), len(cls) > 0
 }
 
